@@ -245,6 +245,9 @@ _CMPOPS = {
 }
 _TYPE_ATTRS = {(int, 'from_bytes'), (bytes, 'fromhex'), (bytearray, 'fromhex'), (str, 'maketrans'), (bytes, 'maketrans'), (bytearray, 'maketrans'),
                (dict, 'fromkeys'), (str, 'join'), (bytes, 'join'), (str, 'format'), (str, 'lower'), (str, 'upper'), (int, 'bit_length'),
+               (__import__('inspect').Parameter, 'POSITIONAL_ONLY'), (__import__('inspect').Parameter, 'POSITIONAL_OR_KEYWORD'),
+               (__import__('inspect').Parameter, 'VAR_POSITIONAL'), (__import__('inspect').Parameter, 'KEYWORD_ONLY'),
+               (__import__('inspect').Parameter, 'VAR_KEYWORD'), (__import__('inspect').Parameter, 'empty'),
                (dict, '__getitem__'), (dict, 'get'), (list, '__getitem__'), (tuple, '__getitem__'), (str, 'isdigit'), (bytes, 'isdigit')}
 
 
@@ -336,6 +339,7 @@ _SAFE_METHODS = {
                 'insert', 'reverse', 'clear', 'copy', 'strip', 'rstrip', 'lstrip', 'zfill', 'split', 'isdigit', '__getitem__', '__contains__'},
     tuple: {'index', 'count', '__getitem__', '__contains__'},
     int: {'to_bytes', 'bit_length'},
+    __import__('inspect').Parameter: {'name', 'kind', 'default'},
     __import__('decimal').Decimal: {'quantize', 'normalize', 'to_integral_value', 'is_finite', 'as_tuple'},
     list: {'index', 'count', 'append', 'extend', 'pop', 'insert', 'remove', 'clear', 'sort', 'reverse', 'copy', '__getitem__', '__contains__'},
     frozenset: {'union', 'intersection'},
@@ -676,6 +680,123 @@ def _call(node, env):
         raise Unknown(f'{ast.unparse(node)[:80]}: {type(ex).__name__}: {ex}')
 
 
+import inspect as _inspect  # noqa: E402
+
+
+class _Sig:
+    """What inspect.signature() reports, as far as private code may look at it."""
+    _model = ('parameters',)
+
+    def __init__(self, params):
+        self.parameters = dict((p_.name, p_) for p_ in params)
+
+
+def _signature(obj, *, follow_wrapped=True):
+    """inspect.signature for interpreted functions and for function descriptions supplied by a rule (read the way inspect reads a
+    function object: __wrapped__, __code__, __defaults__, __kwdefaults__)."""
+    P = _inspect.Parameter
+    hops = 0
+    while follow_wrapped and hops < 16:
+        nxt = _getattr(obj, '__wrapped__', None) if type(obj).__name__ != 'FuncVal' else None
+        if nxt is None:
+            break
+        obj, hops = nxt, hops + 1
+    node = obj.node if type(obj).__name__ == 'FuncVal' else None
+    if isinstance(node, ast.FunctionDef):
+        a = node.args
+        dv = getattr(obj, 'defaults', None) or {}
+        pos = a.posonlyargs + a.args
+        with_default = {x.arg for x in pos[len(pos) - len(a.defaults):]} | {x.arg for x, d in zip(a.kwonlyargs, a.kw_defaults) if d is not None}
+        out = []
+        for x in a.posonlyargs:
+            out.append(P(x.arg, P.POSITIONAL_ONLY, default=dv.get(x.arg, _OpaqueDefault(x.arg)) if x.arg in with_default else P.empty))
+        for x in a.args:
+            out.append(P(x.arg, P.POSITIONAL_OR_KEYWORD, default=dv.get(x.arg, _OpaqueDefault(x.arg)) if x.arg in with_default else P.empty))
+        if a.vararg:
+            out.append(P(a.vararg.arg, P.VAR_POSITIONAL))
+        for x in a.kwonlyargs:
+            out.append(P(x.arg, P.KEYWORD_ONLY, default=dv.get(x.arg, _OpaqueDefault(x.arg)) if x.arg in with_default else P.empty))
+        if a.kwarg:
+            out.append(P(a.kwarg.arg, P.VAR_KEYWORD))
+        return _Sig(out)
+    code = _getattr(obj, '__code__')
+    names = _getattr(code, 'co_varnames')
+    npos, nkwo = _getattr(code, 'co_argcount'), _getattr(code, 'co_kwonlyargcount')
+    nposonly = _getattr(code, 'co_posonlyargcount', 0)
+    flags = _getattr(code, 'co_flags', None)
+    if flags is None:
+        raise Unknown('inspect.signature of a function description without co_flags')
+    defaults = _getattr(obj, '__defaults__', None) or ()
+    kwdefaults = _getattr(obj, '__kwdefaults__', None) or {}
+    out = []
+    for i, n in enumerate(names[:npos]):
+        d = defaults[i - (npos - len(defaults))] if i >= npos - len(defaults) else P.empty
+        out.append(P(n, P.POSITIONAL_ONLY if i < nposonly else P.POSITIONAL_OR_KEYWORD, default=d))
+    k = npos + nkwo
+    if flags & 0x04:
+        out.append(P(names[k], P.VAR_POSITIONAL))
+        k += 1
+    for n in names[npos:npos + nkwo]:
+        out.append(P(n, P.KEYWORD_ONLY, default=kwdefaults.get(n, P.empty)))
+    if flags & 0x08:
+        out.append(P(names[k], P.VAR_KEYWORD))
+    return _Sig(out)
+
+
+class _OpaqueDefault:
+    def __init__(self, name):
+        self.name = name
+
+
+def bind_stdlib_import(st, env):
+    """Bind what an `import X` / `from X import y` of a modelled standard-library module binds (nothing for any other module)."""
+    if isinstance(st, ast.Import):
+        for a in st.names:
+            if a.name == 're':
+                env[a.asname or 're'] = _ReStub
+            elif a.name == 'math':
+                import math as _math
+                env[a.asname or 'math'] = Namespace('math', {'ceil': _math.ceil, 'floor': _math.floor})
+            elif a.name == 'sys':
+                import sys as _sys
+                env[a.asname or 'sys'] = Namespace('sys', {'maxsize': _sys.maxsize})
+            elif a.name == 'segno':
+                pass
+            elif a.name == 'decimal':
+                import decimal as _decimal
+                env[a.asname or 'decimal'] = Namespace('decimal', {'Decimal': _decimal.Decimal, 'ROUND_HALF_UP': _decimal.ROUND_HALF_UP})
+            elif a.name in ('contextlib', 'typing', 'dataclasses', 'enum'):
+                import importlib as _il
+                real = _il.import_module(a.name)
+                env[a.asname or a.name] = Namespace(a.name, {k: _modern_name(a.name, k) for k in dir(real) if _modern_name(a.name, k) is not None})
+            elif a.name == 'inspect':
+                env[a.asname or 'inspect'] = Namespace('inspect', {'signature': _signature, 'Parameter': _inspect.Parameter})
+            elif a.name == 'codecs':
+                import codecs as _codecs
+                env[a.asname or 'codecs'] = Namespace('codecs', {'lookup': _codecs.lookup})
+            elif a.name == 'os':
+                env[a.asname or 'os'] = Namespace('os', {'path': Namespace('os.path', dict(_PURE_MODULES['os.path'])), 'linesep': '\n', 'sep': '/'})
+            elif a.name in _PURE_MODULES and (a.asname or a.name) not in env:
+                env[a.asname or a.name] = Namespace(a.name, _pure_module(a.name))
+    elif isinstance(st, ast.ImportFrom) and st.module in ('contextlib', 'typing', 'dataclasses', 'enum'):
+        for a in st.names:
+            v = _modern_name(st.module, a.name)
+            if v is not None:
+                env[a.asname or a.name] = v
+    elif isinstance(st, ast.ImportFrom) and st.module == 'inspect':
+        for a in st.names:
+            if a.name in ('signature', 'Parameter'):
+                env[a.asname or a.name] = {'signature': _signature, 'Parameter': _inspect.Parameter}[a.name]
+    elif isinstance(st, ast.ImportFrom):
+        for a in st.names:
+            if st.module == 'collections' and a.name == 'namedtuple':
+                env[a.asname or a.name] = collections.namedtuple
+            elif (st.module, a.name) in _STDLIB_PURE:
+                env[a.asname or a.name] = _STDLIB_PURE[(st.module, a.name)]
+            elif st.module in _PURE_MODULES and a.name in _pure_module(st.module):
+                env[a.asname or a.name] = _pure_module(st.module)[a.name]
+
+
 # -- module-level constant evaluation ------------------------------------------------------
 
 def module_consts(forest, modname, _stack=()):
@@ -702,8 +823,8 @@ def module_consts(forest, modname, _stack=()):
                         env[a.asname or a.name] = sub(a.name)
                     except Unknown as u:
                         failed[a.asname or a.name] = str(u)
-        elif isinstance(st, ast.ImportFrom) and (st.level >= 1 or st.module in ('segno',)):
-            src = st.module if st.level >= 1 else None
+        elif isinstance(st, ast.ImportFrom) and (st.level >= 1 or st.module == 'segno' or (st.module or '').startswith('segno.')):
+            src = st.module if st.level >= 1 else (st.module[len('segno.'):] if st.module != 'segno' else None)
             for a in st.names:
                 try:
                     if src and src in forest.trees:
@@ -712,45 +833,8 @@ def module_consts(forest, modname, _stack=()):
                         env[a.asname or a.name] = sub(a.name)
                 except Unknown as u:
                     failed[a.asname or a.name] = str(u)
-        elif isinstance(st, ast.Import):
-            for a in st.names:
-                if a.name == 're':
-                    env[a.asname or 're'] = _ReStub
-                elif a.name == 'math':
-                    import math as _math
-                    env[a.asname or 'math'] = Namespace('math', {'ceil': _math.ceil, 'floor': _math.floor})
-                elif a.name == 'sys':
-                    import sys as _sys
-                    env[a.asname or 'sys'] = Namespace('sys', {'maxsize': _sys.maxsize})
-                elif a.name == 'segno':
-                    pass
-                elif a.name == 'decimal':
-                    import decimal as _decimal
-                    env[a.asname or 'decimal'] = Namespace('decimal', {'Decimal': _decimal.Decimal, 'ROUND_HALF_UP': _decimal.ROUND_HALF_UP})
-                elif a.name in ('contextlib', 'typing', 'dataclasses', 'enum'):
-                    import importlib as _il
-                    real = _il.import_module(a.name)
-                    env[a.asname or a.name] = Namespace(a.name, {k: _modern_name(a.name, k) for k in dir(real) if _modern_name(a.name, k) is not None})
-                elif a.name == 'codecs':
-                    import codecs as _codecs
-                    env[a.asname or 'codecs'] = Namespace('codecs', {'lookup': _codecs.lookup})
-                elif a.name == 'os':
-                    env[a.asname or 'os'] = Namespace('os', {'path': Namespace('os.path', dict(_PURE_MODULES['os.path'])), 'linesep': '\n', 'sep': '/'})
-                elif a.name in _PURE_MODULES and (a.asname or a.name) not in env:
-                    env[a.asname or a.name] = Namespace(a.name, _pure_module(a.name))
-        elif isinstance(st, ast.ImportFrom) and st.module in ('contextlib', 'typing', 'dataclasses', 'enum'):
-            for a in st.names:
-                v = _modern_name(st.module, a.name)
-                if v is not None:
-                    env[a.asname or a.name] = v
-        elif isinstance(st, ast.ImportFrom):
-            for a in st.names:
-                if st.module == 'collections' and a.name == 'namedtuple':
-                    env[a.asname or a.name] = collections.namedtuple
-                elif (st.module, a.name) in _STDLIB_PURE:
-                    env[a.asname or a.name] = _STDLIB_PURE[(st.module, a.name)]
-                elif st.module in _PURE_MODULES and a.name in _pure_module(st.module):
-                    env[a.asname or a.name] = _pure_module(st.module)[a.name]
+        elif isinstance(st, ast.Import) or (isinstance(st, ast.ImportFrom) and st.level == 0):
+            bind_stdlib_import(st, env)
         elif isinstance(st, (ast.FunctionDef, ast.AsyncFunctionDef, ast.ClassDef)):
             env[st.name] = FuncRef(modname, st.name, st)
         elif isinstance(st, ast.Assign):
